@@ -74,7 +74,7 @@ func killChildMain() {
 
 func runKillChild(dir string, straceArgs ...string) (exitErr error, out []byte) {
 	args := append([]string{"-f"}, straceArgs...)
-	args = append(args, os.Args[0], "-test.run=^TestKillChild$", "-test.timeout=60s", "-mc.role=killchild", "-mc.killdir="+dir)
+	args = append(args, os.Args[0], "-test.run=^TestKillChild$", "-test.timeout=600s", "-mc.role=killchild", "-mc.killdir="+dir)
 	cmd := exec.Command("strace", args...)
 	cmd.Env = append(os.Environ(), "GOMAXPROCS=2")
 	out, err := cmd.CombinedOutput()
